@@ -56,8 +56,8 @@ def query_points(rng, d, n):
 
 class Check(PropertyCheck):
     id = 'C01'
-    lean_targets = ['RegionsVerif.Props.C01', 'RegionsVerif.Props.C01Poly']
-    namespaces = ['RegionsVerif.Props.C01']
+    lean_targets = ['RegionsVerif.Props.C01', 'RegionsVerif.Props.C01Poly', 'RegionsVerif.Bridge.FormulasC01']
+    namespaces = ['RegionsVerif.Props.C01', 'RegionsVerif.Bridge.C01']
     rule = ('every shape class x sizes 1e-3..1e6 x centres to 1e6 x any angle in deg/rad/arcmin/hourangle x include flag in '
             '{absent, True, False, 1, 0} x query coordinates scalar / 0-length / 1-D / N-D (C-, Fortran-ordered, transposed and strided views), int or float; query points on a '
             'cloud scaled to the shape and at relative distances 1e-6..1e-1 from its boundary. Non-trivial = the case has at '
@@ -68,6 +68,16 @@ class Check(PropertyCheck):
     validated_only = ['"even-odd = inside" for arbitrary simple polygons (no Jordan curve theorem): decided by the differential '
                       'run against an independent exact-rational crossing-number oracle; proved: division-free crossing test, '
                       'edge symmetry, translation invariance, axis rectangles, confinement to the vertex range, parity of straddling edges']
+
+    def translate(self):
+        # tie T: regenerate Gen/FormulasC01.lean from the current source (tools/py2lean.py)
+        import importlib.util, os
+        from .common import VERIF
+        spec = importlib.util.spec_from_file_location('py2lean', os.path.join(VERIF, 'tools', 'py2lean.py'))
+        mod = importlib.util.module_from_spec(spec)
+        spec.loader.exec_module(mod)
+        problems, _ = mod.main(['C01'])
+        return problems
 
     def generate(self, rng, tier):
         n = 700 if tier == 'quick' else 20000
